@@ -173,4 +173,8 @@ def out(obs):
     """observation {'ok': ctree} | {'raise': 'ExType'} -> literal of type out"""
     if "ok" in obs:
         return "(Ok (%s))" % tree(obs["ok"])
+    if obs["raise"] == "ExRecursion":
+        # the interpreter's stack ran out: what the fuelled models render as OutOfFuel (a model that terminates
+        # where the implementation recurses for ever, or the other way round, still shows as a disagreement)
+        return "OutOfFuel"
     return "(Raise %s)" % obs["raise"]
